@@ -1,0 +1,5 @@
+//go:build !verif
+
+package profile
+
+func verifGate(point string) {}
